@@ -38,8 +38,12 @@ def jobs(tier):
             for variant in variants:
                 lens = [("W", "W")] if variant != "same" else [("W", "W"), ("W+1", "W"), ("W", "W+2"), ("0", "W"), ("1", "1"), ("W-1", "W")]
                 for (la, lb) in lens:
-                    js.append(("job_tamper", dict(_name="q=%s %s params=%s delivered=(%s,%s)" % (qn, fl, variant, la, lb),
-                                                  qn=qn, fl=fl, variant=variant, la=la, lb=lb)))
+                    sers = [(0, 0), (1, 1)] if (variant == "same" and (la, lb) == ("W", "W")) else [(0, 0)]
+                    if tier != "quick" and variant == "same" and (la, lb) == ("W", "W"):
+                        sers = [(0, 0), (1, 0), (0, 1), (1, 1)]
+                    for ser in sers:
+                        js.append(("job_tamper", dict(_name="q=%s %s params=%s delivered=(%s,%s) restored=%d%d" % (qn, fl, variant, la, lb, ser[0], ser[1]),
+                                                      qn=qn, fl=fl, variant=variant, la=la, lb=lb, ser=ser)))
     js.append(("job_pool_ground", dict(_name="in-flight modification pool on the shipped sets (ground)")))
     # GC3 for the real groups is part of this property: raw inbound bytes enter the transcript, so every element must
     # have exactly one accepted byte string (jobs shared with C05)
@@ -55,7 +59,7 @@ def _len(spec, W):
     return {"W": W + 1, "W+1": W + 2, "W+2": W + 3, "W-1": W, "0": 0, "1": 1}[spec]     # incl. side byte
 
 
-def job_tamper(J, qn, fl, variant, la, lb):
+def job_tamper(J, qn, fl, variant, la, lb, ser=(0, 0)):
     q = orders()[qn]
     P = loader.MODS["params"]
     J.bounds.update(q=qn, flavour=fl, params_variant=variant, delivered=(la, lb), lens=dict(pw=2, ids=1))
@@ -91,6 +95,10 @@ def job_tamper(J, qn, fl, variant, la, lb):
             a = klass("S")(pw, idSymmetric=idA, params=p1, entropy_f=eA)
             b = klass("S")(pw2, idSymmetric=idA2, params=p2, entropy_f=eB)
         mA, mB = SymBytes.of(a.start()), SymBytes.of(b.start())
+        if ser[0]:      # either end may have been persisted and revived between start() and finish()
+            a = type(a).from_serialized(a.serialize(), params=p1)
+        if ser[1]:
+            b = type(b).from_serialized(b.serialize(), params=p2)
         dA = SymBytes.fresh("toA_side", 1) + SymBytes.fresh_chunk("toA", _len(la, W) - 1) if _len(la, W) else SymBytes([])
         dB = SymBytes.fresh("toB_side", 1) + SymBytes.fresh_chunk("toB", _len(lb, W) - 1) if _len(lb, W) else SymBytes([])
         w = dict(a=a, b=b, mA=mA, mB=mB, dA=dA, dB=dB, pw=pw, pw2=pw2, idA=idA, idA2=idA2, idB=idB, idB2=idB2, p1=p1, p2=p2, g=g)
@@ -102,7 +110,7 @@ def job_tamper(J, qn, fl, variant, la, lb):
     for r in J.explore(h, max_paths=300):
         w = r.ctx.data.get("w")
         J.reach(r)
-        cex = lambda m, w=w: _cex(w, m, fl, variant, q)
+        cex = lambda m, w=w: dict(_cex(w, m, fl, variant, q), ser=list(ser))
         if r.kind != "ret":
             J.claim(r, "sessions start (%s)" % type(r.value).__name__, False, cex=cex, oracle="tamper")
             continue
@@ -180,13 +188,22 @@ def job_pool_ground(J):
 
 
 # ------------------------------------------------------------------ oracles
-def oracle_tamper(fl, variant, x, y, wscalar, twin=False):
+def oracle_tamper(fl, variant, x, y, wscalar, twin=False, ser=(0, 0)):
     """realise the model on toy groups: parameter sets differing as in `variant`, secret scalars x, y (and the pool
     0, 1, q-1), a password with the model's scalar; equal keys although a blinding element/generator differs is the
     known scalar-coincidence class when q | the product of step 2"""
     from checks import common as C
     from spake2.params import _Params
     from spake2.groups import IntegerGroup
+    # mismatched identities / passwords with either end restored in between
+    for nm in ("toy11", "Ed25519", "I1024"):
+        params = C.params_by_name(nm)
+        for sr in {tuple(bool(s_) for s_ in ser), (True, False), (False, True), (True, True)}:
+            for kw in (dict(idA_B=b"x"), dict(idB_B=b"a") if fl == "AB" else dict(idA_B=b"b"), dict(idB_B=b"x") if fl == "AB" else dict(pwB=b"pW"),
+                       dict(idA_B=b"b", idB_B=b"a") if fl == "AB" else dict(pwB=b""), dict(pwB=b"pw\x00")):
+                res = C.run_exchange(fl, params, b"pw", b"a", b"b", 5, 7, ser=sr, **kw)
+                if res["oA"][0] == "key" and res["oB"][0] == "key" and res["oA"][1] == res["oB"][1]:
+                    return (True, "%s %s: the ends differ in %r, yet agree on a key when restored=%s in between" % (nm, fl, kw, sr))
     if twin and fl == "SS":
         for nm in ("toy11", "Ed25519", "I1024"):
             params = C.params_by_name(nm)
